@@ -19,6 +19,8 @@ import Driver.C05
                              ( <fragsOk> <isNormPath> <allSStep> ): `T T` first = the path satisfies the
                              hypotheses of simple_eq_generic_fragments_partial (`inScope_sound`);
                              <allSStep> = T: those of simple_eq_generic_spellings_partial (`allSStepM_sound`)
+    C17 fullscope <text>    -> per location path: N (not supported by SimplePathStrategy) or T / F: the path
+                             satisfies the hypotheses of simple_eq_generic, the full statement (`fullScope_sound`)
 -/
 namespace Driver.C17
 open Genshi Genshi.Path Genshi.Sexp Driver.C05
@@ -69,6 +71,11 @@ def handle : List Sexp → Option Sexp
           match FragsM.inScope p with
           | none => .list [.atom "none", ofBool (FragsM.allSStepM p)]
           | some (a, b) => .list [ofBool a, ofBool b, ofBool (FragsM.allSStepM p)]))
+      | .error _ => some (.atom "unmodelled")
+  | [.atom "fullscope", .str text] =>
+      match parse text with
+      | .ok ps => some (.list (.atom "ok" :: ps.map fun p =>
+          if !simpleSupports p then .atom "N" else ofBool (FragsM.fullScopeM p)))
       | .error _ => some (.atom "unmodelled")
   | _ => none
 
